@@ -46,3 +46,11 @@ theorem sumTo_eq_sum (n : ℕ) (f : ℕ → ℝ) : sumTo n f = ∑ i ∈ range n
 
 theorem tab_get {α} [Inhabited α] (n : ℕ) (f : ℕ → α) (i : ℕ) (h : i < n) : (tab n f)[i]! = f i := by
   simp [tab, h]
+
+theorem tab_congr {α} (n : ℕ) (f g : ℕ → α) (h : ∀ i < n, f i = g i) : tab n f = tab n g := by
+  apply Array.ext
+  · simp [tab]
+  · intro i h1 h2
+    simp only [tab, Array.getElem_map, Array.getElem_range]
+    apply h
+    simpa [tab] using h1
